@@ -282,9 +282,9 @@ func c15SendJoinGen(t *rapid.T) c15SendJoinCase {
 			}
 		case "room":
 			if rapid.Bool().Draw(t, "roomWhich") {
-				evRoom = c15PlainRoomID(c.Version, "elsewhere")
+				evRoom = c15OtherRoom(t, c.Version)
 			} else {
-				c.ReqRoom = c15PlainRoomID(c.Version, "elsewhere")
+				c.ReqRoom = c15OtherRoom(t, c.Version)
 			}
 		case "event-id":
 			badEventID = true
@@ -585,9 +585,9 @@ func c15SJPGen(t *rapid.T) c15SJPCase {
 			}
 		case "room":
 			if rapid.Bool().Draw(t, "roomWhich") {
-				evRoom = c15PlainRoomID(version, "elsewhere")
+				evRoom = c15OtherRoom(t, version)
 			} else {
-				c.ReqRoom = c15PlainRoomID(version, "elsewhere")
+				c.ReqRoom = c15OtherRoom(t, version)
 			}
 		case "event-id":
 			badEventID = true
